@@ -19,11 +19,14 @@ var c09Bal = [][]string{
 }
 
 func observePrint(bin, dir string, id int, j *kj.Journal, valued bool, cs map[string]any) {
+	observePrintText(bin, dir, id, j.Render(), valued, cs)
+}
+
+func observePrintText(bin, dir string, id int, text string, valued bool, cs map[string]any) {
 	d := filepath.Join(dir, fmt.Sprintf("r%d", id))
 	os.RemoveAll(d)
 	os.MkdirAll(d, 0o755)
 	defer os.RemoveAll(d)
-	text := j.Render()
 	orig := filepath.Join(d, "orig.knut")
 	os.WriteFile(orig, []byte(text), 0o644)
 	run := func(args ...string) core.RunResult {
@@ -150,6 +153,14 @@ func C09(c *core.Ctx) {
 		cases[i] = j.Case(i+1, "print", nil)
 	}
 	core.Parallel(n, func(i int) { observePrint(bin, root, i+1, js[i], valued[i], cases[i]) })
+	// (T) hand-written journals from the odd corners of the input space: judged on the observations alone
+	corpus := oddJournals()
+	for k, t := range corpus {
+		cs := map[string]any{"id": 7000000 + k, "kind": "text"}
+		observePrintText(bin, root, 7000000+k, t, strings.Contains(t, " price "), cs)
+		cases = append(cases, cs)
+	}
+	c.Add("corpus_journals", len(corpus))
 	nt := 0
 	for _, cs := range cases {
 		if cs["obs"].(map[string]any)["accepted"].(bool) {
@@ -162,6 +173,10 @@ func C09(c *core.Ctx) {
 	c.JudgeAndReport("Trace_Print", "Trace_Print.cfg", cases, 16,
 		func(old map[string]any) map[string]any {
 			id := old["id"].(int)
+			if id >= 7000000 {
+				observePrintText(bin, root, id, corpus[id-7000000], strings.Contains(corpus[id-7000000], " price "), old)
+				return old
+			}
 			observePrint(bin, root, id, js[id-1], valued[id-1], old)
 			return old
 		},
